@@ -142,92 +142,31 @@ theorem rot_unit (α δ ζ θ : ℝ) :
   unit_of_dot_preserving (M := fun v => rotY (rad θ) (rotZ (rad ζ) v))
     (fun u v => by rw [rotY_dot, rotZ_dot]) α δ
 
-/-- Start declination ≤ 85°: the `asin` branch.  The result points where the rotation
-    `Rz(z) Ry(θ) Rz(ζ)` takes the starting direction; no exception. -/
-theorem precession_apply_asin (α δ ζ z θ : ℝ) (hδ : ¬ (85 < δ)) :
+/-- `final_dec = atan2(c, sqrt(a*a + b*b))` (after the fix): for EVERY start the result points where the
+    rotation `Rz(z) Ry(θ) Rz(ζ)` takes the starting direction; there is no branch and no exception. -/
+theorem precession_apply_rot (α δ ζ z θ : ℝ) :
     ∃ ra dec, precession_apply α δ ζ z θ = .ok (ra, dec) ∧
       dir ra dec = precessionRot (rad ζ) (rad z) (rad θ) (dir α δ) ∧ |ra| < 360 ∧ -90 ≤ dec ∧ dec ≤ 90 := by
   have hu := rot_unit α δ ζ θ
   have hw := abc_eq α δ ζ θ
   set w := rotY (rad θ) (rotZ (rad ζ) (dir α δ)) with hwdef
   simp only at hu
-  have h85 : plt 85.0 δ = false := by unfold plt; simp; norm_num; exact not_lt.mp hδ
-  have hc : psin (a_rad θ) * pcos (a_rad δ) * pcos (a_rad α + a_rad ζ) + pcos (a_rad θ) * psin (a_rad δ) = w.2.2 := by
-    rw [hw]; rfl
-  have key := m_asin_ok (Lemmas.Sphere.abs_le_one_of_unit hu)
-  rw [← hc] at key
-  unfold precession_apply
-  simp only [h85, key, bind, Except.bind, pure, Except.pure, Bool.false_eq_true, if_false]
-  refine ⟨_, _, rfl, ?_, abs_a_reduce_lt _, a_of_rad_arcsin_range _⟩
-  rw [dir_of_rad_add, hc]
-  unfold precessionRot
-  rw [← hwdef]
-  congr 1
-  obtain ⟨h1, h2, h3⟩ := Lemmas.Sphere.unit_of_arg_arcsin hu (k := 1) one_pos
-  have e1 : pcos (a_rad θ) * pcos (a_rad δ) * pcos (a_rad α + a_rad ζ) - psin (a_rad θ) * psin (a_rad δ) = 1 * w.1 := by
-    rw [hw]; simp [pcos, psin, a_rad_eq]
-  have e2 : pcos (a_rad δ) * psin (a_rad α + a_rad ζ) = 1 * w.2.1 := by
-    rw [hw]; simp [pcos, psin, a_rad_eq]
-  unfold patan2
-  rw [e1, e2, h1, h2, h3]
-
-/-- Start declination > 85°: the `acos(sqrt(a² + b²))` branch returns the ABSOLUTE VALUE of the rotated
-    z component: the result points where `Rz(z)` takes `(x, y, |z|)`, `(x, y, z) = Ry(θ) Rz(ζ) · start`. -/
-theorem precession_apply_acos (α δ ζ z θ : ℝ) (hδ : 85 < δ) :
-    ∃ ra dec, precession_apply α δ ζ z θ = .ok (ra, dec) ∧
-      dir ra dec = rotZ (rad z)
-        ((rotY (rad θ) (rotZ (rad ζ) (dir α δ))).1, (rotY (rad θ) (rotZ (rad ζ) (dir α δ))).2.1,
-         |(rotY (rad θ) (rotZ (rad ζ) (dir α δ))).2.2|) ∧ |ra| < 360 ∧ 0 ≤ dec ∧ dec ≤ 90 := by
-  have hu := rot_unit α δ ζ θ
-  have hw := abc_eq α δ ζ θ
-  set w := rotY (rad θ) (rotZ (rad ζ) (dir α δ)) with hwdef
-  simp only at hu
-  have h85 : plt 85.0 δ = true := by unfold plt; simp; norm_num; exact hδ
   have eb : pcos (a_rad θ) * pcos (a_rad δ) * pcos (a_rad α + a_rad ζ) - psin (a_rad θ) * psin (a_rad δ) = w.1 := by
     rw [hw]; rfl
   have ea : pcos (a_rad δ) * psin (a_rad α + a_rad ζ) = w.2.1 := by
     rw [hw]; rfl
-  have hs : w.2.1 * w.2.1 + w.1 * w.1 = w.1 ^ 2 + w.2.1 ^ 2 := by ring
-  have hr0 : 0 ≤ √(w.1 ^ 2 + w.2.1 ^ 2) := sqrt_nonneg _
-  have hr1 : √(w.1 ^ 2 + w.2.1 ^ 2) ≤ 1 := by
-    apply Real.sqrt_le_one.mpr; nlinarith [sq_nonneg w.2.2]
-  have key : m_acos (psqrt (w.2.1 * w.2.1 + w.1 * w.1)) = .ok (arccos (√(w.1 ^ 2 + w.2.1 ^ 2))) := by
-    unfold psqrt; rw [hs]
-    exact m_acos_ok (by rw [abs_le]; exact ⟨by linarith, hr1⟩)
+  have ec : psin (a_rad θ) * pcos (a_rad δ) * pcos (a_rad α + a_rad ζ) + pcos (a_rad θ) * psin (a_rad δ) = w.2.2 := by
+    rw [hw]; rfl
   unfold precession_apply
-  simp only [h85, ea, eb, key, bind, Except.bind, pure, Except.pure, if_true]
-  have hcos : cos (arccos (√(w.1 ^ 2 + w.2.1 ^ 2))) = √(w.1 ^ 2 + w.2.1 ^ 2) :=
-    cos_arccos (by linarith) hr1
-  have hsin : sin (arccos (√(w.1 ^ 2 + w.2.1 ^ 2))) = |w.2.2| := by
-    rw [sin_arccos, sq_sqrt (by positivity), ← sqrt_sq_eq_abs]
-    congr 1; linarith
-  refine ⟨_, _, rfl, ?_, abs_a_reduce_lt _, ?_⟩
-  · rw [dir_of_rad_add, hcos, hsin]
-    congr 1
-    obtain ⟨h1, h2⟩ := Lemmas.Sphere.norm_mul_cos_sin_arg w.1 w.2.1
-    unfold patan2
-    rw [h1, h2]
-  · have h0 := arccos_nonneg (√(w.1 ^ 2 + w.2.1 ^ 2))
-    have h1 : arccos (√(w.1 ^ 2 + w.2.1 ^ 2)) ≤ π / 2 := arccos_le_pi_div_two.mpr hr0
-    have hab : |arccos (√(w.1 ^ 2 + w.2.1 ^ 2))| < 2 * π := by
-      rw [abs_lt]; constructor <;> linarith [pi_pos]
-    apply a_of_rad_bounds hab <;> linarith [pi_pos]
-
-
-/-- Either branch, as long as the `acos` branch is not asked for a negative declination. -/
-theorem precession_apply_rot (α δ ζ z θ : ℝ)
-    (h : ¬ (85 < δ) ∨ 0 ≤ (rotY (rad θ) (rotZ (rad ζ) (dir α δ))).2.2) :
-    ∃ ra dec, precession_apply α δ ζ z θ = .ok (ra, dec) ∧
-      dir ra dec = precessionRot (rad ζ) (rad z) (rad θ) (dir α δ) ∧ |ra| < 360 ∧ -90 ≤ dec ∧ dec ≤ 90 := by
-  by_cases h85 : 85 < δ
-  · have hc : 0 ≤ (rotY (rad θ) (rotZ (rad ζ) (dir α δ))).2.2 := by
-      rcases h with h | h
-      · exact absurd h85 h
-      · exact h
-    obtain ⟨ra, dec, hok, hd, hra, h0, h1⟩ := precession_apply_acos α δ ζ z θ h85
-    refine ⟨ra, dec, hok, ?_, hra, by linarith, h1⟩
-    rw [hd, abs_of_nonneg hc]; rfl
-  · exact precession_apply_asin α δ ζ z θ h85
+  simp only [ea, eb, ec, pure, Except.pure]
+  refine ⟨_, _, rfl, ?_, abs_a_reduce_lt _, a_of_rad_atan2_lat_range _ _ (psqrt_nonneg _)⟩
+  rw [dir_of_rad_add, add_comm (w.2.1 * w.2.1)]
+  unfold precessionRot
+  rw [← hwdef]
+  congr 1
+  have := dir_atan2_atan2 hu
+  rw [dir_of_rad] at this
+  exact this
 
 /-! ### proper motion: the start is displaced by `100 t μ` (mod 360) -/
 
@@ -300,13 +239,12 @@ theorem fk5_same (e : ℝ) : fk5Zeta e e = 0 ∧ fk5Z e e = 0 ∧ fk5Theta e e =
   exact ⟨rfl, rfl, rfl⟩
 
 /-- `precession_equatorial` without proper motion, for a start given as Angles (|value| < 360). -/
-theorem precession_equatorial_rot (e0 e1 α δ : ℝ) (hα : |α| < 360) (hδ : |δ| < 360)
-    (h : ¬ (85 < δ) ∨ 0 ≤ (rotY (fk5Theta e0 e1) (rotZ (fk5Zeta e0 e1) (dir α δ))).2.2) :
+theorem precession_equatorial_rot (e0 e1 α δ : ℝ) (hα : |α| < 360) (hδ : |δ| < 360) :
     ∃ ra dec, precession_equatorial e0 e1 α δ 0 0 = .ok (ra, dec) ∧
       dir ra dec = precessionRot (fk5Zeta e0 e1) (fk5Z e0 e1) (fk5Theta e0 e1) (dir α δ) ∧
       |ra| < 360 ∧ -90 ≤ dec ∧ dec ≤ 90 := by
   rw [precession_equatorial_eq, pm_zero hα, pm_zero hδ]
-  exact precession_apply_rot α δ _ _ _ h
+  exact precession_apply_rot α δ _ _ _
 
 /-! ### `precession_ecliptical` -/
 
@@ -316,7 +254,7 @@ def ecl_core (l' b' eta pie p : ℝ) : PyRes (ℝ × ℝ) := do
   let b := pcos (a_rad b') * pcos (a_rad pie - a_rad l')
   let c := pcos (a_rad eta) * psin (a_rad b') + psin (a_rad eta) * pcos (a_rad b') * psin (a_rad pie - a_rad l')
   let final_lon := a_rad p + a_rad pie - patan2 a b
-  let final_lat ← m_asin c
+  let final_lat := patan2 c (psqrt (a * a + b * b))
   pure (a_of_rad final_lon, a_of_rad final_lat)
 
 theorem precession_ecliptical_eq (e0 e1 l b μl μb : ℝ) :
@@ -344,23 +282,20 @@ theorem ecl_core_spec (l' b' eta pie p : ℝ) :
     ext <;> simp only <;> ring
   have hc : pcos (a_rad eta) * psin (a_rad b') + psin (a_rad eta) * pcos (a_rad b') * psin (a_rad pie - a_rad l') = w.2.2 := by
     rw [hw]; rfl
-  have key := m_asin_ok (Lemmas.Sphere.abs_le_one_of_unit hu)
-  rw [← hc] at key
+  have hb : pcos (a_rad b') * pcos (a_rad pie - a_rad l') = w.1 := by
+    rw [hw]; rfl
+  have ha : pcos (a_rad eta) * pcos (a_rad b') * psin (a_rad pie - a_rad l') - psin (a_rad eta) * psin (a_rad b')
+      = w.2.1 := by
+    rw [hw]; rfl
   unfold ecl_core
-  simp only [key, bind, Except.bind, pure, Except.pure]
-  refine ⟨_, _, rfl, ?_, a_of_rad_arcsin_range _⟩
-  rw [hc]
+  simp only [ha, hb, hc, pure, Except.pure]
+  refine ⟨_, _, rfl, ?_, a_of_rad_atan2_lat_range _ _ (psqrt_nonneg _)⟩
   have hsum : a_rad p + a_rad pie = rad p + rad pie := rfl
-  rw [hsum, dir_of_rad_sub]
+  rw [hsum, dir_of_rad_sub, add_comm (w.2.1 * w.2.1)]
   congr 1
-  obtain ⟨h1, h2, h3⟩ := Lemmas.Sphere.unit_of_arg_arcsin hu (k := 1) one_pos
-  have e1' : pcos (a_rad b') * pcos (a_rad pie - a_rad l') = 1 * w.1 := by
-    rw [hw]; simp [pcos, a_rad_eq]
-  have e2' : pcos (a_rad eta) * pcos (a_rad b') * psin (a_rad pie - a_rad l') - psin (a_rad eta) * psin (a_rad b')
-      = 1 * w.2.1 := by
-    rw [hw]; simp [pcos, psin, a_rad_eq]
-  unfold patan2
-  rw [e1', e2', h1, h2, h3]
+  have := dir_atan2_atan2 hu
+  rw [dir_of_rad] at this
+  exact this
 
 /-! ### `Angle(0, 0, s)` is `s / 3600` degrees modulo 360 -/
 
@@ -517,7 +452,7 @@ theorem motion_in_space_spec (α δ r v μα μδ t : ℝ) (hr : r ≠ 0)
     have hab : |arctan (P.2.2 / √(P.1 ^ 2 + P.2.1 ^ 2))| < 2 * π := by
       rw [abs_lt]; constructor <;> linarith [pi_pos]
     apply a_of_rad_bounds hab <;> linarith
-/-! ### the near-pole branch inside the property's domain (±5 centuries) -/
+/-! ### below one turn `Angle(0, 0, s)` is exactly `s / 3600`; size of θ within ±5 centuries -/
 
 /-- Below one turn of arcseconds nothing is removed: `secCore x = x / 3600`. -/
 theorem secCore_exact {x : ℝ} (_h0 : 0 ≤ x) (h1 : x < 1296000) : secCore x = x / 3600 := by
@@ -587,65 +522,4 @@ theorem fk5_theta_small {T t : ℝ} (hT : |T| ≤ 5) (ht : |t| ≤ 10) : |fk5_th
     rw [abs_le]; constructor <;> norm_num at b2 b4 ⊢ <;> linarith
   have := abs_mul_le ht a5
   linarith
-/-- A star within 5° of the north pole keeps a non-negative declination under a tilt of at most 85°. -/
-theorem polar_z_nonneg {α δ ζr θr : ℝ} (hδ : 85 < δ ∧ δ ≤ 90) (hθ : |θr| ≤ rad 85) :
-    0 ≤ (rotY θr (rotZ ζr (dir α δ))).2.2 := by
-  have hp : 0 < π / 180 := by positivity
-  have hd0 : 0 ≤ rad δ := by unfold rad; exact mul_nonneg (by linarith [hδ.1]) hp.le
-  have hd1 : rad δ ≤ π / 2 := by unfold rad; nlinarith [hδ.2]
-  have hd85 : rad 85 < rad δ := by unfold rad; exact mul_lt_mul_of_pos_right hδ.1 hp
-  have h85 : rad 85 < π / 2 := by unfold rad; nlinarith [pi_pos]
-  have hcd : 0 ≤ cos (rad δ) := cos_nonneg_of_neg_pi_div_two_le_of_le (by linarith [pi_pos]) hd1
-  have hsd : 0 ≤ sin (rad δ) := sin_nonneg_of_nonneg_of_le_pi hd0 (by linarith [pi_pos])
-  have hval : (rotY θr (rotZ ζr (dir α δ))).2.2
-      = cos (rad δ) * cos (rad α + ζr) * sin θr + sin (rad δ) * cos θr := by
-    unfold rotY rotZ dir; simp only; rw [cos_add]; ring
-  rw [hval]
-  have hC := abs_le.mp (abs_cos_le_one (rad α + ζr))
-  have hθ' := abs_le.mp hθ
-  have hct : 0 ≤ cos θr := cos_nonneg_of_neg_pi_div_two_le_of_le (by linarith) (by linarith)
-  -- sin(δ - |θ|) ≥ 0
-  by_cases hpos : 0 ≤ θr
-  · have hs : 0 ≤ sin θr := sin_nonneg_of_nonneg_of_le_pi hpos (by linarith [pi_pos])
-    have key : 0 ≤ sin (rad δ - θr) :=
-      sin_nonneg_of_nonneg_of_le_pi (by linarith) (by linarith [pi_pos])
-    rw [sin_sub] at key
-    have : -(cos (rad δ) * sin θr) ≤ cos (rad δ) * cos (rad α + ζr) * sin θr := by
-      have := mul_nonneg hcd hs
-      nlinarith [mul_nonneg (mul_nonneg hcd hs) (by linarith [hC.1] : (0:ℝ) ≤ 1 + cos (rad α + ζr))]
-    linarith
-  · have hneg : θr < 0 := not_le.mp hpos
-    have hs : sin θr ≤ 0 := by
-      have := sin_nonneg_of_nonneg_of_le_pi (by linarith : 0 ≤ -θr) (by linarith [pi_pos])
-      rw [sin_neg] at this; linarith
-    have key : 0 ≤ sin (rad δ + θr) :=
-      sin_nonneg_of_nonneg_of_le_pi (by linarith) (by linarith [pi_pos])
-    rw [sin_add] at key
-    have : cos (rad δ) * sin θr ≤ cos (rad δ) * cos (rad α + ζr) * sin θr := by
-      have h1 : 0 ≤ cos (rad δ) * (-sin θr) := mul_nonneg hcd (by linarith)
-      nlinarith [mul_nonneg h1 (by linarith [hC.2] : (0:ℝ) ≤ 1 - cos (rad α + ζr))]
-    linarith
-
-/-- Within ±5 centuries of J2000 the `acos` branch is never asked for a negative declination. -/
-theorem fk5_polar_ok (e0 e1 α δ : ℝ) (hδ : 85 < δ ∧ δ ≤ 90)
-    (h0 : |e0 - 2451545| ≤ 182625) (h1 : |e1 - 2451545| ≤ 182625) :
-    0 ≤ (rotY (fk5Theta e0 e1) (rotZ (fk5Zeta e0 e1) (dir α δ))).2.2 := by
-  apply polar_z_nonneg hδ
-  have e1' : (2451545.0 : ℝ) = 2451545 := by norm_num
-  have e2' : (36525.0 : ℝ) = 36525 := by norm_num
-  have hT : |(e0 - 2451545.0) / 36525.0| ≤ 5 := by
-    rw [e1', e2', abs_div, abs_of_pos (by norm_num : (0 : ℝ) < 36525), div_le_iff₀ (by norm_num)]; linarith
-  have ht : |(e1 - e0) / 36525.0| ≤ 10 := by
-    rw [e2', abs_div, abs_of_pos (by norm_num : (0 : ℝ) < 36525), div_le_iff₀ (by norm_num)]
-    have a := abs_le.mp h0; have b := abs_le.mp h1
-    rw [abs_le]; constructor <;> linarith [a.1, a.2, b.1, b.2]
-  have hs := fk5_theta_small hT ht
-  unfold fk5Theta
-  rw [a_of_sec_exact (lt_of_le_of_lt hs (by norm_num))]
-  unfold rad
-  have hp : 0 < π / 180 := by positivity
-  rw [abs_mul, abs_of_pos hp, abs_div, abs_of_pos (by norm_num : (0 : ℝ) < 3600)]
-  apply mul_le_mul_of_nonneg_right _ hp.le
-  rw [div_le_iff₀ (by norm_num)]; linarith
-
 end Pymeeus.Refine.Coords
